@@ -28,6 +28,10 @@ CHECKS = {
                 note="Trusted: lxml; the strict reading of ODF 1.2 part 1 section 6.1.2 implemented in mc/models/odfws.py. 'Randomly beyond the bound' is not done."),
     "C09": dict(tech=MC, ref="5/C09", text="Paragraph family (every sequence of <=3 inline items in white-space normal form) x every insertion form (regex / offset / position / content; span, link, bookmark, reference mark, note, annotation) x every removal afterwards; depth 2 (two successive insertions of mixed kinds) on a sub-family. Oracles are independent lxml walks on the tree before the call: projection unchanged, wrapped substrings, offsets of marks, no partial edit.",
                 note="Trusted: lxml; offsets are counted in the readable text as the statement says (divergences of odfdo's own coordinate system are the open finding F21)."),
+    "C16": dict(tech=ENUM, ref="5/C16", text="Paragraph family x pattern family x replacement strings x formatted in {False, True}: count, per-text-node substitution, markup in place, formatted result in white-space normal form, all against an independent per-node re.subn over the lxml tree; search / search_first / search_all / match for every pattern and text_at for every (start, end).",
+                note="Trusted: lxml, Python re. Patterns matching the empty string excluded as in the statement. With links, positions index odfdo's own inner_text (Link.__str__ shows '[text](url)')."),
+    "C20": dict(tech=MC, ref="5/C20", text="Every heading level sequence up to the length bound (outline level, TOC position, heading text kinds and edit history rotated over the sequences; full product on sequences of length <= 2), histories fill / fill,fill / fill,edit,fill: entries == selected headings in order, entry == number + space + heading projection and nothing else, counter model for the numbers, title kept, second fill is a no-op, the odfdo-headers script prints the same numbers.",
+                note="Trusted: lxml; no numbering convention assumed for skipped levels (arity and monotonicity only)."),
 }
 
 NOT_YET = {}
